@@ -16,7 +16,8 @@ PLAIN = c05.PLAIN
 PACKAGED = ("epub", "odt", "bundlezip", "itmz", "fodt")
 E = docs.EXT
 CLISTD = docs.STD | E["TRANSCLUDE"]
-EXTSETS = [("std", CLISTD, []), ("compat", docs.COMPAT, ["-c"]), ("full", CLISTD | E["COMPLETE"], ["-f"]), ("snip", CLISTD | E["SNIPPET"], ["-s"]),
+EXTSETS = [("std", CLISTD, []), ("compat", docs.COMPAT, ["-c"]), ("full", CLISTD | E["COMPLETE"], ["-f"]), ("fullsnip", CLISTD | E["COMPLETE"] | E["SNIPPET"], ["-f", "-s"]),
+           ("snip", CLISTD | E["SNIPPET"], ["-s"]),
            ("nolabels", CLISTD | E["NO_LABELS"], ["--nolabels"]), ("nosmart", E["NOTES"] | E["CRITIC"] | E["TRANSCLUDE"], ["--nosmart"])]
 CLIFMT = dict(html="html", latex="latex", beamer="beamer", memoir="memoir", opml="opml", fodt="fodt", odt="odt", epub="epub", bundlezip="bundlezip", itmz="itmz", mmd="mmd")
 BATCHEXT = dict(html=".html", latex=".tex", beamer=".tex", memoir=".tex", fodt=".fodt", odt=".odt", mmd=".mmdtext", epub=".epub", bundlezip=".textpack", opml=".opml", itmz=".itmz")
@@ -86,7 +87,7 @@ def run(tier, seed):
     dpool["bom"] = b"\xef\xbb\xbfTitle: with BOM\n\n# Head #\n\ntext\n"
     dpool.update({"empty": b"", "blank": b"\n\n", "defonly": b"[a]: http://x.y/\n\n[^f]: unused note\n", "metaonly": b"Base Header Level: 2\n\n"})
     fmts = ["html", "latex", "beamer", "memoir", "opml", "fodt", "odt", "epub", "bundlezip", "itmz"]
-    exts = EXTSETS[:3] if tier == "quick" else EXTSETS
+    exts = EXTSETS[:4] if tier == "quick" else EXTSETS
     wd = scratch("c06")
     try:
         cases = [(d, f, x) for d in dpool for f in fmts for x in exts]
@@ -177,6 +178,9 @@ def run(tier, seed):
             s = ["seg\tmeta", line("src", d, sx(dpool[d]))]
             for fam in ("s", "d", "e"):
                 s += [line("meta", fam, d, "has"), line("meta", fam, d, "keys"), line("meta", fam, d, "val", sx("title")), line("meta", fam, d, "val", sx("Author")), line("meta", fam, d, "val", sx("nokey"))]
+            # the engine variants on ONE engine object: asked twice, and again after a parse and after a conversion
+            q = [line("e_meta", 0, "has"), line("e_meta", 0, "keys"), line("e_meta", 0, "val", sx("title")), line("e_meta", 0, "val", sx("Author")), line("e_meta", 0, "val", sx("nokey"))]
+            s += [line("e_new", 0, d, CLISTD & ~E["TRANSCLUDE"], 0)] + q + q + [line("e_parse", 0)] + q + [line("e_conv", 0, docs.FMT["html"])] + q + [line("e_free", 0)]
             msegs.append(s)
         mres = run_harness(exe, msegs)
         for d, r in zip(dpool, mres):
